@@ -13,6 +13,7 @@ flag combination, every expression text, both formats and both settings of the f
 expression parser `parse` and interpretation `F` of function symbols.
 -/
 import GlotaranProofs.Lemmas.C16
+import GlotaranProofs.Lemmas.C16Fns
 namespace Glotaran.C16
 
 /-! ### the regenerated tables -/
@@ -367,5 +368,109 @@ example : fromList (fun _ => none) C12.F0 (fun t => if t = "3e2" then some (some
      .lst [.cell (.flt (.fin 4)), .cell (.str "foo")]]
     = .ok [{ label := "1", value := .fin 1, nonNeg := true }, { label := "2", value := .fin 300, nonNeg := true },
            { label := "foo", value := .fin 4, nonNeg := true }] := by decide +kernel
+
+/-! ### the source text of the specification functions is the model
+
+`Generated.Fns.*` (lean/GlotaranModel/Generated/C16Fns.lean) is regenerated on every run from the Python source
+of the functions named: every statement translated into Lean over the value types of the model
+(harness/props/_c16_fns.py; vocabulary GlotaranModel/C16Py.lean).  Each theorem says that the translated source
+computes, for every input, what the hand-written model definition computes — the definitions the driver
+executes and all theorems above are about.  `env` carries the three external functions (`float(str)`, the
+expression parser, function symbols). -/
+
+/-- a concrete environment for the examples: `float("3e2") = 300.0`, no expressions -/
+def env0 : Py.Env :=
+  { parse := fun _ => none, F := C12.F0, T := fun t => if t = "3e2" then some (some (.fin 300)) else none }
+
+/-- `convert_scientific_to_float(value)` is the model's conversion of a str atom: `float(value)` when
+    `number_scientific` matches a prefix, the string otherwise. -/
+theorem generated_convert_scientific_to_float_eq_model (env : Py.Env) (value : String) :
+    Generated.Fns.convert_scientific_to_float env value = sanitizeAtom env.T (.cell (.str value)) :=
+  convert_eq env value
+
+example : Generated.Fns.convert_scientific_to_float env0 "3e2" = .ok (.cell (.flt (.fin 300))) ∧
+    Generated.Fns.convert_scientific_to_float env0 "k3e2" = .ok (.cell (.str "k3e2")) := by decide +kernel
+
+/-- `sanitize_parameter_list` (the in-place loop over the list) is `sanitize`: element by element, only
+    str elements are touched, the first `float()` that raises is the error. -/
+theorem generated_sanitize_parameter_list_eq_model (env : Py.Env) (parameter_list : List Atom) :
+    Generated.Fns.sanitize_parameter_list env parameter_list = sanitize env.T parameter_list :=
+  sanitize_eq env parameter_list
+
+example : Generated.Fns.sanitize_parameter_list env0 [.cell (.str "k"), .cell (.str "3e2"), .opts []] =
+    .ok [.cell (.str "k"), .cell (.flt (.fin 300)), .opts []] := by decide +kernel
+
+/-- `deserialize_options` never raises and is the dict of the model's renamed entries (later entries win,
+    first position kept); `lookup_dictUpdate_dictOf` (Lemmas) shows that merging this dict with `|=` is merging
+    the entries one after the other, which is how `listKwargs` uses it. -/
+theorem generated_deserialize_options_eq_model (env : Py.Env) (options : Opts) :
+    Generated.Fns.deserialize_options env options = .ok (Py.dictOf (deserialize options)) :=
+  deserialize_options_eq env options
+
+example : Generated.Fns.deserialize_options env0 [("max", .int 1), ("vary", .bool false), ("maximum", .int 2)] =
+    .ok [("maximum", .int 2), ("vary", .bool false)] := by decide +kernel
+
+/-- `_retrieve_item_from_list_by_type` returns the first element of one of the types (the default if there
+    is none) and removes exactly that element from the list — for every list, every tuple of types; it never
+    raises (the `tmp[0]` and `.remove` of the source are always defined). -/
+theorem generated_retrieve_item_eq_model (env : Py.Env) (item_list : List Atom) (item_type : List Py.Ty) (dflt : Atom) :
+    Generated.Fns.retrieve_item_from_list_by_type env item_list item_type dflt =
+      .ok ((item_list.find? (fun x => Py.Atom.isinst x item_type)).getD dflt,
+           item_list.eraseP (fun x => Py.Atom.isinst x item_type)) :=
+  retrieve_eq env item_list item_type dflt
+
+example : Generated.Fns.retrieve_item_from_list_by_type env0 [.cell (.int 1), .cell (.str "a"), .cell (.flt .nan), .cell (.int 1)]
+    [Py.Ty.int, Py.Ty.float] (.cell .none) = .ok (.cell (.int 1), [.cell (.str "a"), .cell (.flt .nan), .cell (.int 1)]) := by
+  decide +kernel
+
+/-- **`Parameter.from_list` is `paramFromList`**: sanitize a copy, take label, value and options by type in
+    that order, defaults first and own options second, then `Parameter(**param)` — same parameter, same
+    error, for every definition list and every default block. -/
+theorem generated_Parameter_from_list_eq_model (env : Py.Env) (values : List Atom) (default_options : Option Opts) :
+    Generated.Fns.Parameter_from_list env values default_options = paramFromList env.T values default_options :=
+  Parameter_from_list_eq env values default_options
+
+set_option maxRecDepth 4000 in
+example : Generated.Fns.Parameter_from_list env0 [.opts [("max", .int 9)], .cell (.str "3e2"), .cell (.str "k")]
+    (some [("maximum", .int 5), ("vary", .bool false)]) =
+    .ok { label := "k", value := .fin 300, maximum := .fin 9, vary := false } := by decide +kernel
+
+/-- **`flatten_parameter_dict` is `flattenKids`** for nested dicts of any depth and width: recursion into dict
+    values with the keys joined by `.`, the first dict of a list as its default block, numbering from 1 over the
+    non-dict items, a bare value becomes `[str(index), value]`, a list without a str (after sanitizing a copy)
+    gets `str(index)` appended. -/
+theorem generated_flatten_parameter_dict_eq_model (env : Py.Env) (parameter_dict : Kids) :
+    Generated.Fns.flatten_parameter_dict env parameter_dict = flattenKids env.T parameter_dict :=
+  flatten_eq env parameter_dict
+
+example : Generated.Fns.flatten_parameter_dict env0
+    (.cons "a" (.group (.cons "b" (.items [.bare (.opts [("vary", .bool false)]), .bare (.cell (.int 7)), .lst [.cell (.str "3e2")]]) .nil)) .nil) =
+    [.ok ("a.b", [.cell (.str "1"), .cell (.int 7)], some [("vary", .bool false)]),
+     .ok ("a.b", [.cell (.str "3e2"), .cell (.str "2")], some [("vary", .bool false)])] := by decide +kernel
+
+/-- **`Parameters.from_list` is `fromList`** (numbering `i+1` over the non-dict items, the first dict as
+    defaults, dict insertion by label, then `Parameters.__init__`). -/
+theorem generated_Parameters_from_list_eq_model (env : Py.Env) (parameter_list : List Item) :
+    Generated.Fns.Parameters_from_list env parameter_list = fromList env.parse env.F env.T parameter_list :=
+  Parameters_from_list_eq env parameter_list
+
+set_option maxRecDepth 4000 in
+example : Generated.Fns.Parameters_from_list env0
+    [.bare (.cell (.int 1)), .bare (.opts [("non-negative", .bool true)]), .bare (.cell (.str "3e2")),
+     .lst [.cell (.flt (.fin 4)), .cell (.str "foo")]]
+    = .ok [{ label := "1", value := .fin 1, nonNeg := true }, { label := "2", value := .fin 300, nonNeg := true },
+           { label := "foo", value := .fin 4, nonNeg := true }] := by decide +kernel
+
+/-- **`Parameters.from_dict` is `fromDict`** (every flattened definition through `Parameter.from_list`, the
+    group path prefixed with a dot, the label assignment validated, dict insertion, `Parameters.__init__`). -/
+theorem generated_Parameters_from_dict_eq_model (env : Py.Env) (parameter_dict : Kids) :
+    Generated.Fns.Parameters_from_dict env parameter_dict = fromDict env.parse env.F env.T parameter_dict :=
+  Parameters_from_dict_eq env parameter_dict
+
+set_option maxRecDepth 4000 in
+example : Generated.Fns.Parameters_from_dict env0
+    (.cons "kinetic" (.items [.lst [.cell (.str "k1"), .cell (.int 2), .opts [("min", .int 0)]], .bare (.cell (.str "3e2"))]) .nil)
+    = .ok [{ label := "kinetic.k1", value := .fin 2, minimum := .fin 0 }, { label := "kinetic.2", value := .fin 300 }] := by
+  decide +kernel
 
 end Glotaran.C16
